@@ -9,11 +9,14 @@ ALL = [f"C{n:02d}" for n in range(1, 20)]
 LEVEL_NOTE = (
     "Trusted: Coq 8.16.1 kernel + bytecode VM (vm_compute; no native_compute); no axioms (Print Assumptions of every property "
     "theorem is checked to be 'Closed under the global context'); the syn-based translator (transcribes /repo declarations and match "
-    "tables to coq/Gen/Generated.v on every run); extraction with ExtrOcamlBasic + ExtrOcamlString only, OCaml 4.13.1, driver glue; the "
+    "tables to coq/Gen/Generated.v, and function-body shapes to coq/Gen/Shapes.v, on every run); extraction with ExtrOcamlBasic + ExtrOcamlString only, OCaml 4.13.1, driver glue; the "
     "Rust harness; coq/Spec tables are a hand transcription of the CTAP/WebAuthn/U2F/RFC 8949 texts. Modelled, not verified: cbor-smol "
     "0.5.1, serde-indexed 0.1.1, serde_derive/serde_repr output, heapless 0.7.17, heapless-bytes 0.3.0, serde_bytes 0.11.19, cosey "
     "0.3.2, iso7816 0.1.4, bitflags 1.3.2, core::str::from_utf8 (hand-written Gallina tied by the differential correspondence run); "
-    "procedural function bodies of the crate are hand-modelled, declarations and match tables are regenerated. usize = 64 bit."
+    "procedural function bodies of the crate are hand-modelled, declarations and match tables are regenerated, and the shape "
+    "(literals, operators, calls, control flow) of every hand-modelled body is regenerated and compared with the recorded one "
+    "(coq/Gen/Shapes.v vs coq/Spec/FnShapes.v). The thorough tier also runs coqchk -o on the property file (no axioms, no "
+    "type-in-type, no unsafe fixpoints, no assumed positivity). usize = 64 bit."
 )
 
 
